@@ -50,6 +50,7 @@ def run_case(case, res):
         raw = DL.source_bytes(case["source"])
         baseline = DL.package_rules(DL.Package(raw)) if raw else []
         baseline = [b for b in baseline if b[0] in ("manifest-lists-absent-path", "file-not-listed-in-manifest", "manifest-lists-path-twice")]
+        folder_reuse = {}
         for ci, cyc in enumerate(case["cycles"]):
             model = DL.EditModel()
             kinds = set()
@@ -81,7 +82,14 @@ def run_case(case, res):
                         same_twice += 1
             expect_mt = doc.mimetype
             how = cyc["how"]
-            artefact, pkg = DL.save_doc(doc, how, tmp, pretty=cyc["pretty"], tag=str(ci))
+            if how == "via-folder":
+                # saved as a folder at one and the same place in every cycle, the folder then opened and saved as zip
+                from odfdo import Document as _D
+
+                folder, _p = DL.save_doc(doc, "folder", tmp, pretty=cyc["pretty"], tag="F", reuse=folder_reuse)
+                artefact, pkg = DL.save_doc(_D(folder), "zip-io", tmp, pretty=False, tag=str(ci))
+            else:
+                artefact, pkg = DL.save_doc(doc, how, tmp, pretty=cyc["pretty"], tag=str(ci))
             bad = DL.subtract_baseline(DL.package_rules(pkg, expect_mimetype=expect_mt), baseline)
             # model of the files the package should contain
             for uri in model.added:
@@ -126,7 +134,10 @@ def gen_case(rng):
                 edits.insert(at + off, op)
         if rng.random() < 0.2:
             edits = DL.readd_theme(rng, edits)  # a file added, deleted, added again with the same content
-        cycles.append({"edits": edits, "how": rng.choice(["zip-path", "zip-io"]), "pretty": rng.random() < 0.3})
+        cycles.append({"edits": edits, "how": rng.choice(["zip-path", "zip-io", "zip-path", "zip-io", "via-folder"]), "pretty": rng.random() < 0.3})
+    if len(cycles) > 1 and rng.random() < 0.3:
+        for cyc in cycles:
+            cyc["how"] = "via-folder"  # every cycle through the same folder: what an earlier cycle deleted must be gone
     return {"source": DL.gen_source(rng, allow_generated=True), "cycles": cycles}
 
 
